@@ -106,7 +106,7 @@ def tree_hash(with_tests=False):
     if with_tests:
         rels += ["test", "examples"]
     _hash_files(h, REPO, rels)
-    _hash_files(h, VERIF, ["tools", "drivers/drv.hpp"])
+    _hash_files(h, VERIF, ["tools/fcppt-facts.cpp", "drivers/drv.hpp"])
     if OVERLAY:
         _hash_files(h, OVERLAY, ["."])
     h.update(REPO.encode())
